@@ -305,6 +305,17 @@ class Gen:
                 elif mobile:
                     b = self.r.choice(mobile)
                     cons.append({"type": "cspeed", "b1": b, "k": self.r.randint(1, NU[desc[b - 1]["type"]]), "s": self.r.randint(-2, 2), "on": on})
+        # parameters that live in the State (Ball / Rod stations, rod length, prescribed speed / coordinate / acceleration, no-slip
+        # point and direction): half of the time the constraint is BUILT with other defaults and given its parameters at run time
+        r3 = random.Random("rt" + json.dumps(cons))
+        grt = {}
+        for cc in cons:
+            if cc.get("weld") or cc["type"] not in ("ballc", "rod", "cspeed", "ccoord", "cacc", "noslip"):
+                continue
+            key = cc.get("grp", id(cc))
+            if key not in grt:
+                grt[key] = int(r3.random() < 0.5)
+            cc["rt"] = grt[key]
         # force elements with exact laws; the second list is the same elements with changed parameters / enable flags
         TRANSL = {"slider": [1], "cylinder": [2], "planar": [2, 3], "translation": [1, 2, 3], "bushing": [4, 5, 6], "bendstretch": [2], "euler5": [4, 5], "freee": [4, 5, 6]}
         fel = []
